@@ -288,6 +288,21 @@ def replay(work, scenarios, kind, tag):
 
 
 def validate(work, lines):
+    """Trace_Explorer over the recorded lines: first with the canonical schedule of silent steps, then the traces
+    that were not explained (other than by a panic, which nothing explains) again with all interleavings."""
+    res, r = _validate(work, lines, "Trace_Explorer.cfg")
+    redo = set(t for t, bad in res.items() if bad is not None and bad.get("a", {}).get("res", {}).get("tag") != "panic"
+               and "panic" not in bad.get("a", {}))
+    if redo:
+        res2, r2 = _validate(work, [ln for ln in lines if ln["t"] in redo], "Trace_Explorer_full.cfg")
+        res.update(res2)
+        for k in ("distinct", "generated", "wall_s"):
+            r[k] += r2[k]
+        r["second_pass_traces"] = len(redo)
+    return res, r
+
+
+def _validate(work, lines, cfg):
     sdir = os.path.join(work, "spec")
     if not os.path.isdir(sdir):
         shutil.copytree(vlib.SPEC, sdir)
@@ -295,7 +310,7 @@ def validate(work, lines):
     with open(os.path.join(sdir, "trace.ndjson"), "w") as fh:
         for ln in lines:
             fh.write(json.dumps(ln) + "\n")
-    r = vlib.tlc(work, "Trace_Explorer", "Trace_Explorer.cfg", workers=1, timeout=1800, heap="12g")
+    r = vlib.tlc(work, "Trace_Explorer", cfg, workers=1, timeout=1800, heap="12g")
     fin = vlib.tlc_prints(r["out"], "FINISHED")
     if r["violated"]:
         raise vlib.Broken("a specification invariant failed during trace validation (the trace specification only takes "
